@@ -159,7 +159,7 @@ where
                                 break;
                             }
 
-                            Self::check_trace_from_initial::<C>(
+                            let has_initial_state = Self::check_trace_from_initial::<C>(
                                 &model,
                                 seed,
                                 &chooser,
@@ -170,6 +170,10 @@ where
                                 &max_depth,
                                 symmetry,
                             );
+                            if !has_initial_state {
+                                log::debug!("{}: No initial state within the boundary.", t);
+                                return;
+                            }
 
                             // Check whether we have found everything.
                             // All threads should reach this check and have the same result,
@@ -220,13 +224,21 @@ where
         target_max_depth: Option<NonZeroUsize>,
         global_max_depth: &AtomicUsize,
         symmetry: Option<fn(&M::State) -> M::State>,
-    ) {
+    ) -> bool {
         let properties = model.properties();
 
         let mut chooser_state = chooser.new_state(seed);
 
         let mut state = {
-            let mut initial_states = model.init_states();
+            // Like the exhaustive checkers, only start from initial states within the boundary.
+            let mut initial_states: Vec<_> = model
+                .init_states()
+                .into_iter()
+                .filter(|s| model.within_boundary(s))
+                .collect();
+            if initial_states.is_empty() {
+                return false;
+            }
             let index = chooser.choose_initial_state(&mut chooser_state, &initial_states);
             initial_states.swap_remove(index)
         };
@@ -269,14 +281,8 @@ where
                     );
                     // return not break here as we do not know if this is terminal.
                     log::trace!("Reached max depth");
-                    return;
+                    return true;
                 }
-            }
-
-            // Skip if outside boundary.
-            if !model.within_boundary(&state) {
-                log::trace!("Found state outside of boundary");
-                break;
             }
 
             // add the current fingerprint to the path
@@ -378,6 +384,11 @@ where
                         // this action was ignored, try and choose another
                         log::trace!("No next state");
                     }
+                    Some(next_state) if !model.within_boundary(&next_state) => {
+                        // leaving the boundary is not a step of the trace (and does not end
+                        // it either: another action may stay inside), try and choose another
+                        log::trace!("Found state outside of boundary");
+                    }
                     Some(next_state) => {
                         // now clear the actions for the next round
                         actions.clear();
@@ -398,6 +409,7 @@ where
                     .or_insert_with(|| fingerprint_path.clone());
             }
         }
+        true
     }
 }
 
